@@ -332,6 +332,8 @@ def _extract_attributes(element):
     attributes = []
     for subel in element:
         sqname = etree.QName(subel)
+        # an empty element carries the empty string
+        text = subel.text if subel.text is not None else ""
         _t = xml_qname_to_QualifiedName(
             subel, "%s:%s" % (subel.prefix, sqname.localname)
         )
@@ -340,13 +342,13 @@ def _extract_attributes(element):
             if key == _ns_xsi("type"):
                 datatype = xml_qname_to_QualifiedName(subel, value)
                 if datatype == XSD_QNAME:
-                    _v = xml_qname_to_QualifiedName(subel, subel.text)
+                    _v = xml_qname_to_QualifiedName(subel, text)
                 else:
-                    _v = prov.model.Literal(subel.text, datatype)
+                    _v = prov.model.Literal(text, datatype)
             elif key == _ns_prov("ref"):
                 _v = xml_qname_to_QualifiedName(subel, value)
             elif key == _ns_xml("lang"):
-                _v = prov.model.Literal(subel.text, langtag=value)
+                _v = prov.model.Literal(text, langtag=value)
             else:
                 warnings.warn(
                     "The element '%s' contains an attribute %s='%s' "
@@ -357,7 +359,7 @@ def _extract_attributes(element):
                 )
 
         if not subel.attrib:
-            _v = subel.text
+            _v = text
 
         attributes.append((_t, _v))
 
